@@ -43,3 +43,744 @@ Lemma witnesses_repaired :
              done s = true /\ out s = sequential (f2_tokens ++ [FlushOnly])) /\
   (exists s, run (repaired 2 1) f4_sched (init (repaired 2 1) f4_tokens) = Some s /\ crashed s = false).
 Proof. split; eexists; (split; [vm_compute; reflexivity|]); repeat split. Qed.
+
+(* ------------------------------------------------------------------------------------------- *)
+(* Part A.  MultipleOutputBuffer: filtering the lines of a clean batch buffers exactly the events of the sequential  *)
+(* filter, provided the filter never mixes AddNGram and SingleAddNGram for one line.                                  *)
+Definition is_one (c : call) : bool := match c with ToOne _ => true | ToAll => false end.
+Definition wf_line (l : line) : Prop := lcalls l = [ToAll] \/ forallb is_one (lcalls l) = true.
+Definition wf_token (t : token) : Prop := match t with Line l => wf_line l | _ => True end.
+Definition clean (b : batch) : Prop := bout b = [] /\ blast b = None.
+Definition slot_lt (b : batch) (i : nat) : Prop := match blast b with None => True | Some p => fst p < i end.
+Definition same_hdr (b b' : batch) : Prop := bid b' = bid b /\ bseq b' = bseq b /\ blines b' = blines b.
+
+Lemma flush_events_app : forall b x, flat_map annot_events (b ++ [x]) = flat_map annot_events b ++ annot_events x.
+Proof. intros. rewrite flat_map_app. simpl. rewrite app_nil_r. reflexivity. Qed.
+
+Lemma push_back_sys_last : forall pre a o, asys a <> [] ->
+  push_back_sys (pre ++ [a]) o = pre ++ [mkannot (asys a ++ [o]) (aline a)].
+Proof.
+  induction pre as [|h t IH]; intros a o Ha; simpl; [reflexivity|].
+  rewrite IH by assumption. destruct (t ++ [a]) eqn:E; [destruct t; discriminate|reflexivity].
+Qed.
+
+Lemma annot_events_push : forall a o, asys a <> [] ->
+  annot_events (mkannot (asys a ++ [o]) (aline a)) = annot_events a ++ [Ev (ToOne o) (aline a)].
+Proof.
+  intros a o Ha. unfold annot_events. simpl. destruct (asys a) as [|x r] eqn:E; [congruence|].
+  simpl. rewrite map_app. reflexivity.
+Qed.
+
+(* the calls after the first SingleAddNGram of a line all hit the remembered pointer *)
+Lemma add_calls_more : forall cs b i l pre a,
+  forallb is_one cs = true -> bout b = pre ++ [a] -> asys a <> [] -> aline a = lid l -> blast b = Some (i, llen l) ->
+  exists b', add_calls b i l cs = Some b' /\ same_hdr b b' /\ blast b' = Some (i, llen l) /\
+             flush_events b' = flush_events b ++ map (fun c => Ev c (lid l)) cs.
+Proof.
+  induction cs as [|c cs IH]; intros b i l pre a Hall Hb Ha Hl Hlast; simpl.
+  - exists b. unfold same_hdr. rewrite app_nil_r. auto.
+  - simpl in Hall. apply andb_true_iff in Hall. destruct Hall as [Hc Hall]. destruct c as [|o]; [discriminate|].
+    unfold add_call. rewrite Hlast. unfold pair_eqb. simpl. rewrite !Nat.eqb_refl. simpl.
+    destruct (bout b) as [|a0 l0] eqn:Eb; [destruct pre; discriminate|]. rewrite Hb.
+    rewrite push_back_sys_last by assumption.
+    edestruct (IH (mkbatch (bid b) (bseq b) (blines b) (pre ++ [mkannot (asys a ++ [o]) (aline a)]) (Some (i, llen l))) i l pre
+                  (mkannot (asys a ++ [o]) (aline a)) Hall eq_refl) as (b' & Hb' & Hh & Hl' & Hf).
+    { simpl. destruct (asys a); discriminate. } { exact Hl. } { reflexivity. }
+    exists b'. split; [exact Hb'|]. split; [exact Hh|]. split; [exact Hl'|].
+    rewrite Hf. unfold flush_events. simpl. rewrite Eb, Hb, !flush_events_app, annot_events_push by assumption.
+    rewrite Hl, <- !app_assoc. reflexivity.
+Qed.
+
+Lemma add_calls_line : forall b i l, wf_line l -> slot_lt b i ->
+  exists b', add_calls b i l (lcalls l) = Some b' /\ same_hdr b b' /\ slot_lt b' (S i) /\
+             flush_events b' = flush_events b ++ line_events l.
+Proof.
+  intros b i l Hwf Hlt. unfold line_events. destruct Hwf as [Hall|Hone].
+  - rewrite Hall. simpl. eexists. split; [reflexivity|]. split; [unfold same_hdr; simpl; auto|]. split.
+    + unfold slot_lt in *. simpl. destruct (blast b); [lia|exact I].
+    + unfold flush_events. simpl. rewrite flush_events_app. reflexivity.
+  - destruct (lcalls l) as [|c cs] eqn:E.
+    + simpl. exists b. split; [reflexivity|]. split; [unfold same_hdr; auto|]. split.
+      * unfold slot_lt in *. destruct (blast b); [lia|exact I].
+      * rewrite app_nil_r. reflexivity.
+    + simpl in Hone. apply andb_true_iff in Hone. destruct Hone as [Hc Hcs]. destruct c as [|o]; [discriminate|].
+      cbn [add_calls]. unfold add_call.
+      assert (Hne : match blast b with Some p => pair_eqb p (i, llen l) | None => false end = false).
+      { unfold slot_lt in Hlt. destruct (blast b) as [p|]; [|reflexivity]. unfold pair_eqb. simpl.
+        destruct (fst p =? i) eqn:F; [apply Nat.eqb_eq in F; lia|reflexivity]. }
+      rewrite Hne.
+      edestruct (add_calls_more cs (mkbatch (bid b) (bseq b) (blines b) (bout b ++ [mkannot [o] (lid l)]) (Some (i, llen l))) i l
+                   (bout b) (mkannot [o] (lid l)) Hcs eq_refl) as (b' & Hb' & Hh & Hl' & Hf); try reflexivity.
+      { simpl. discriminate. }
+      exists b'. split; [exact Hb'|]. split; [exact Hh|]. split.
+      * unfold slot_lt. rewrite Hl'. simpl. lia.
+      * rewrite Hf. unfold flush_events at 1. simpl. rewrite flush_events_app. unfold annot_events. simpl.
+        unfold flush_events. rewrite <- app_assoc. reflexivity.
+Qed.
+
+Lemma call_filter_events : forall ls b i, Forall wf_line ls -> slot_lt b i ->
+  exists b', call_filter b i ls = Some b' /\ same_hdr b b' /\ flush_events b' = flush_events b ++ flat_map line_events ls.
+Proof.
+  induction ls as [|l ls IH]; intros b i Hwf Hlt; simpl.
+  - exists b. unfold same_hdr. rewrite app_nil_r. auto.
+  - inversion Hwf as [|? ? Hl Hls]; subst.
+    destruct (add_calls_line b i l Hl Hlt) as (b1 & H1 & (Ha & Hb & Hc) & Hlt1 & Hf1). rewrite H1.
+    destruct (IH b1 (S i) Hls Hlt1) as (b2 & H2 & (Ha2 & Hb2 & Hc2) & Hf2).
+    exists b2. split; [exact H2|]. split; [unfold same_hdr; repeat split; congruence|].
+    rewrite Hf2, Hf1, <- app_assoc. reflexivity.
+Qed.
+
+(* what a FilterWorker does to a clean batch *)
+Lemma filter_clean_batch : forall b, clean b -> Forall wf_line (blines b) ->
+  exists b', call_filter b 0 (blines b) = Some b' /\ same_hdr b b' /\ flush_events b' = flat_map line_events (blines b).
+Proof.
+  intros b [Ho Hl] Hwf. destruct (call_filter_events (blines b) b 0 Hwf) as (b' & H1 & H2 & H3).
+  { unfold slot_lt. rewrite Hl. exact I. }
+  exists b'. split; [exact H1|]. split; [exact H2|]. rewrite H3. unfold flush_events. rewrite Ho. reflexivity.
+Qed.
+
+(* ------------------------------------------------------------------------------------------- *)
+(* Part B.  The repaired protocol, all inputs, all batch sizes, all numbers of batches, all schedules.               *)
+Fixpoint present_seqs (bs : nat) (ord : list (option batch)) : list nat :=
+  match ord with
+  | [] => []
+  | Some _ :: t => bs :: present_seqs (S bs) t
+  | None :: t => present_seqs (S bs) t
+  end.
+
+Lemma present_in : forall ord bs n, In n (present_seqs bs ord) -> exists i y, n = bs + i /\ nth_error ord i = Some (Some y).
+Proof.
+  induction ord as [|[y|] t IH]; intros bs n H; simpl in H; [contradiction| |].
+  - destruct H as [<-|H]; [exists 0, y; split; [lia|reflexivity]|].
+    destruct (IH _ _ H) as (i & z & -> & Hn). exists (S i), z. split; [lia|exact Hn].
+  - destruct (IH _ _ H) as (i & z & -> & Hn). exists (S i), z. split; [lia|exact Hn].
+Qed.
+Lemma in_present : forall ord bs i y, nth_error ord i = Some (Some y) -> In (bs + i) (present_seqs bs ord).
+Proof.
+  induction ord as [|[z|] t IH]; intros bs i y H; destruct i; simpl in *; try discriminate.
+  - left. lia.
+  - right. replace (bs + S i) with (S bs + i) by lia. eapply IH; eassumption.
+  - replace (bs + S i) with (S bs + i) by lia. eapply IH; eassumption.
+Qed.
+
+Lemma put_present : forall ord pos bs x, (nth_error ord pos = None \/ nth_error ord pos = Some None) ->
+  Permutation (present_seqs bs (put ord pos x)) ((bs + pos) :: present_seqs bs ord).
+Proof.
+  induction ord as [|h t IH]; intros pos bs x H.
+  - clear H. revert bs. induction pos as [|p IHp]; intros bs; simpl.
+    + rewrite Nat.add_0_r. apply Permutation_refl.
+    + replace (bs + S p) with (S bs + p) by lia. apply (IHp (S bs)).
+  - destruct pos as [|p]; simpl in *.
+    + destruct H as [H|H]; [discriminate|]. injection H as ->. simpl. rewrite Nat.add_0_r. apply Permutation_refl.
+    + replace (bs + S p) with (S bs + p) by lia. destruct h as [y|]; simpl.
+      * eapply perm_trans; [apply perm_skip, (IH p (S bs) x H)|]. apply perm_swap.
+      * apply (IH p (S bs) x H).
+Qed.
+Lemma put_nth_same : forall A (ord : list (option A)) pos x, nth_error (put ord pos x) pos = Some (Some x).
+Proof.
+  intros A ord pos. revert ord. induction pos as [|p IH]; intros [|h t] x; simpl; try reflexivity; apply IH.
+Qed.
+Lemma put_nth_other : forall A (ord : list (option A)) pos x i y, i <> pos ->
+  nth_error (put ord pos x) i = Some (Some y) -> nth_error ord i = Some (Some y).
+Proof.
+  intros A ord pos. revert ord. induction pos as [|p IH]; intros [|h t] x i y Hne H; destruct i; simpl in *; try congruence.
+  - destruct i; discriminate.
+  - apply (IH [] x i y) in H; [destruct i; discriminate|congruence].
+  - apply (IH t x i y); congruence.
+Qed.
+
+Lemma remove_nth_perm : forall A (l : list A) i x, nth_error l i = Some x -> Permutation (x :: remove_nth l i) l.
+Proof.
+  induction l as [|h t IH]; intros [|i] x H; simpl in *; try discriminate.
+  - injection H as ->. apply Permutation_refl.
+  - eapply perm_trans; [apply perm_swap|]. apply perm_skip. apply IH. exact H.
+Qed.
+Lemma remove_nth_Forall : forall A (P : A -> Prop) (l : list A) i, Forall P l -> Forall P (remove_nth l i).
+Proof.
+  induction l as [|h t IH]; intros [|i] H; simpl; auto; inversion H; subst; auto.
+Qed.
+Lemma remove_nth_length : forall A (l : list A) i x, nth_error l i = Some x -> S (length (remove_nth l i)) = length l.
+Proof.
+  induction l as [|h t IH]; intros [|i] x H; simpl in *; try discriminate; auto. f_equal. eapply IH; eassumption.
+Qed.
+
+Definition ev_lines (ls : list line) : list event := flat_map line_events ls.
+Lemma ev_lines_app : forall a b, ev_lines (a ++ b) = ev_lines a ++ ev_lines b.
+Proof. intros. unfold ev_lines. apply flat_map_app. Qed.
+Lemma sequential_app : forall a b, sequential (a ++ b) = sequential a ++ sequential b.
+Proof. intros. unfold sequential. apply flat_map_app. Qed.
+
+Definition pending (s : st) : list line :=
+  match pc s with
+  | RTok | RDrain | RDone => match local s with top :: _ => blines top | [] => [] end
+  | _ => []
+  end.
+Definition tail_mark (p : rpc) : list event := match p with RMoveF true | RWait true => [Mark] | _ => [] end.
+Definition front_none (ord : list (option batch)) : Prop := match ord with Some _ :: _ => False | _ => True end.
+
+Section Repaired.
+Variable Q B : nat.
+Hypothesis HQ : 1 <= Q.
+Hypothesis HB : 1 <= B.
+Let cfg := mkconfig Q B false true.
+Variable toks : list token.
+Hypothesis Hwf : Forall wf_token toks.
+Hypothesis Hend : forall l, last toks EndSection <> Line l.   (* the caller ends with a Flush (EndLength, or the raw format's final Flush) *)
+
+(* everything except "the front of the reorder deque is empty", which OutputWorker::operator() re-establishes by draining *)
+Record PInv (subm : list (list line)) (consumed : list token) (s : st) : Prop := {
+  G0 : crashed s = false;
+  G1 : toks = consumed ++ input s;
+  G3 : length (local s) + length (home s) + length (bag s) + length (present_seqs (base s) (ordering s)) = Q;
+  G4 : Forall clean (local s) /\ Forall clean (home s) /\ Forall clean (bag s);
+  G5 : Forall (fun b => bseq b < length subm /\ blines b = nth (bseq b) subm []) (bag s);
+  G6 : forall i b, nth_error (ordering s) i = Some (Some b) ->
+       base s + i < length subm /\ flush_events b = ev_lines (nth (base s + i) subm []);
+  G8 : Permutation (map bseq (bag s) ++ present_seqs (base s) (ordering s)) (seq (base s) (length subm - base s)) /\ base s <= length subm;
+  G9 : match pc s with
+       | RTok => exists top lower, local s = top :: lower /\ bseq top = length subm /\ seqn s = S (length subm) /\ length (blines top) < B /\
+                                   (input s = [] -> blines top = [] /\ base s = length subm)
+       | RMoveA => local s = [] /\ seqn s = length subm /\ input s <> []
+       | RMoveF _ => local s = [] /\ seqn s = length subm
+       | RWait _ => seqn s = length subm
+       | RDrain | RDone => input s = [] /\ pending s = [] /\ base s = length subm
+       end;
+  G10 : out s ++ ev_lines (concat (skipn (base s) subm)) ++ ev_lines (pending s) ++ tail_mark (pc s) = sequential consumed;
+  G11 : Forall wf_line (concat subm) /\ Forall wf_line (pending s);
+  G12 : forall l, last (input s) EndSection <> Line l
+}.
+Definition Inv (s : st) : Prop := exists subm consumed, PInv subm consumed s /\ front_none (ordering s).
+
+
+Lemma skipn_nth : forall A (l : list A) n d, n < length l -> skipn n l = nth n l d :: skipn (S n) l.
+Proof. induction l as [|h t IH]; intros [|n] d H; simpl in *; try lia; auto. apply IH. lia. Qed.
+Lemma Forall_concat_nth : forall A (P : A -> Prop) (l : list (list A)) n, Forall P (concat l) -> Forall P (nth n l []).
+Proof.
+  induction l as [|h t IH]; intros [|n] H; simpl in *; auto.
+  - apply Forall_app in H. tauto.
+  - apply Forall_app in H. apply IH. tauto.
+Qed.
+
+Ltac fields := cbn [crashed input local home bag ordering base out pc seqn].
+Ltac pend := cbn [pending pc local tail_mark crashed input home bag ordering base out seqn].
+Ltac fields_in H := cbn [crashed input local home bag ordering base out pc seqn] in H.
+
+Definition with_out (s : st) (ord : list (option batch)) (bs : nat) (o : list event) (hm : list batch) : st :=
+  mkst (input s) (seqn s) (local s) hm (bag s) ord bs o (pc s) (crashed s).
+
+Lemma drain_inv : forall ord s subm consumed, PInv subm consumed s -> ordering s = ord ->
+  let '(ord', bs, o, hm) := drain cfg ord (base s) (out s) (home s) in
+  PInv subm consumed (with_out s ord' bs o hm) /\ front_none ord'.
+Proof.
+  induction ord as [|[b|] t IH]; intros s subm consumed HP Ho; simpl.
+  - split; [|exact I]. destruct s; simpl in *; subst; exact HP.
+  - (* front present: flush it, hand the batch back, advance base_sequence_ *)
+    set (s1 := with_out s t (S (base s)) (out s ++ flush_events b) (home s ++ [flushed cfg b])).
+    assert (H1 : PInv subm consumed s1).
+    { destruct HP as [P0 P1 P3 P4 P5 P6 P8 P9 P10 P11 P12]. rewrite Ho in *.
+      destruct (P6 0 b eq_refl) as [Hlt Hfl]. rewrite Nat.add_0_r in Hlt, Hfl.
+      unfold s1, with_out. constructor; fields; auto.
+      - simpl in P3. rewrite app_length. simpl. lia.
+      - destruct P4 as (A & Bh & C). repeat split; auto. apply Forall_app. split; [exact Bh|].
+        constructor; [|constructor]. split; reflexivity.
+      - intros i b' Hn. destruct (P6 (S i) b' Hn) as [X Y]. replace (S (base s) + i) with (base s + S i) by lia. auto.
+      - destruct P8 as [Pp Ple]. simpl in Pp. split; [|lia].
+        replace (length subm - base s) with (S (length subm - S (base s))) in Pp by lia. simpl in Pp.
+        apply Permutation_sym in Pp. apply Permutation_cons_app_inv in Pp. apply Permutation_sym. exact Pp.
+      - destruct (pc s); auto.
+        + destruct P9 as (top & lower & E1 & E2 & E3 & E4 & E5). exists top, lower. repeat split; auto; destruct (E5 H); auto. lia.
+        + destruct P9 as (E1 & E2 & E3). lia.
+        + destruct P9 as (E1 & E2 & E3). lia.
+      - unfold pending in *. fields. rewrite <- P10. rewrite (skipn_nth _ subm (base s) []) by exact Hlt.
+        cbn [concat]. rewrite ev_lines_app, Hfl, <- !app_assoc. reflexivity. }
+    specialize (IH s1 subm consumed H1 eq_refl). unfold s1, with_out in IH. fields_in IH. unfold with_out.
+    destruct (drain cfg t (S (base s)) (out s ++ flush_events b) (home s ++ [flushed cfg b])) as [[[ord' bs] o] hm].
+    exact IH.
+  - split; [|exact I]. destruct s; simpl in *; subst; exact HP.
+Qed.
+
+
+Lemma arrive_inv : forall s i s', Inv s -> arrive cfg s i = Some s' -> Inv s'.
+Proof.
+  intros s i s' (subm & consumed & HP & Hfront) Ha. unfold arrive in Ha.
+  destruct (nth_error (bag s) i) as [b|] eqn:Hn; [|discriminate].
+  pose proof HP as [P0 P1 P3 P4 P5 P6 P8 P9 P10 P11 P12].
+  pose proof (remove_nth_perm _ _ _ _ Hn) as Hperm.
+  assert (Hin : In b (bag s)) by (eapply nth_error_In; eassumption).
+  destruct P4 as (C1 & C2 & C3).
+  assert (Hcl : clean b) by (rewrite Forall_forall in C3; auto).
+  assert (Hb5 : bseq b < length subm /\ blines b = nth (bseq b) subm []) by (rewrite Forall_forall in P5; auto).
+  destruct Hb5 as [Hlt Hlines].
+  assert (Hwl : Forall wf_line (blines b)) by (rewrite Hlines; apply Forall_concat_nth; apply P11).
+  destruct (filter_clean_batch b Hcl Hwl) as (b' & Hcf & (Hid & Hseq & Hbl) & Hfl).
+  rewrite Hcf in Ha.
+  destruct P8 as [Pp Ple].
+  (* the sequence number of an in-flight batch is at least base_sequence_, and its position in the deque is free *)
+  assert (Hge : base s <= bseq b).
+  { assert (In (bseq b) (seq (base s) (length subm - base s))).
+    { eapply Permutation_in; [exact Pp|]. apply in_or_app. left. apply in_map. exact Hin. }
+    apply in_seq in H. lia. }
+  assert (Hltb : (bseq b' <? base s) = false) by (apply Nat.ltb_ge; lia).
+  rewrite Hltb in Ha.
+  set (pos := bseq b' - base s) in *.
+  assert (Hpos : base s + pos = bseq b) by (unfold pos; lia).
+  assert (Hfree : nth_error (ordering s) pos = None \/ nth_error (ordering s) pos = Some None).
+  { destruct (nth_error (ordering s) pos) as [[y|]|] eqn:E; auto. exfalso.
+    pose proof (in_present _ (base s) _ _ E) as Hi. rewrite Hpos in Hi.
+    assert (Hnd : NoDup (map bseq (bag s) ++ present_seqs (base s) (ordering s))).
+    { eapply Permutation_NoDup; [apply Permutation_sym; exact Pp|apply seq_NoDup]. }
+    assert (Hp2 : Permutation (map bseq (bag s) ++ present_seqs (base s) (ordering s))
+                              (bseq b :: map bseq (remove_nth (bag s) i) ++ present_seqs (base s) (ordering s))).
+    { change (bseq b :: map bseq (remove_nth (bag s) i) ++ present_seqs (base s) (ordering s))
+        with (map bseq (b :: remove_nth (bag s) i) ++ present_seqs (base s) (ordering s)).
+      apply Permutation_app_tail. apply Permutation_map. apply Permutation_sym. exact Hperm. }
+    eapply Permutation_NoDup in Hnd; [|exact Hp2]. inversion Hnd as [|? ? Hnotin _]; subst.
+    apply Hnotin. apply in_or_app. right. exact Hi. }
+  set (s2 := mkst (input s) (seqn s) (local s) (home s) (remove_nth (bag s) i) (put (ordering s) pos b') (base s) (out s) (pc s) (crashed s)).
+  assert (H2 : PInv subm consumed s2).
+  { unfold s2. constructor; fields; auto.
+    - rewrite (Permutation_length (put_present _ pos (base s) b' Hfree)). simpl.
+      pose proof (remove_nth_length _ _ _ _ Hn). lia.
+    - repeat split; auto. apply remove_nth_Forall. exact C3.
+    - apply remove_nth_Forall. exact P5.
+    - intros j y Hj. destruct (Nat.eq_dec j pos) as [->|Hne].
+      + rewrite put_nth_same in Hj. injection Hj as <-. rewrite Hpos. split; [exact Hlt|]. rewrite Hfl, Hlines. reflexivity.
+      + apply put_nth_other in Hj; [|exact Hne]. apply P6. exact Hj.
+    - split; [|exact Ple].
+      eapply perm_trans; [apply Permutation_app_head; apply put_present; exact Hfree|].
+      rewrite Hpos. eapply perm_trans; [apply Permutation_sym; apply Permutation_middle|].
+      eapply perm_trans; [|exact Pp].
+      change (bseq b :: map bseq (remove_nth (bag s) i) ++ present_seqs (base s) (ordering s))
+        with (map bseq (b :: remove_nth (bag s) i) ++ present_seqs (base s) (ordering s)).
+      apply Permutation_app_tail. apply Permutation_map. exact Hperm. }
+  pose proof (drain_inv _ s2 subm consumed H2 eq_refl) as Hd. unfold s2 in Hd. fields_in Hd.
+  destruct (drain cfg (put (ordering s) pos b') (base s) (out s) (home s)) as [[[ord' bs] o] hm].
+  unfold with_out in Hd. fields_in Hd.
+  injection Ha as <-. destruct Hd as [Hd1 Hd2]. exists subm, consumed. split; [exact Hd1|exact Hd2].
+Qed.
+
+Lemma skipn_app_le : forall A (l r : list A) n, n <= length l -> skipn n (l ++ r) = skipn n l ++ r.
+Proof. induction l as [|h t IH]; intros r [|n] H; simpl in *; try lia; auto. apply IH. lia. Qed.
+Lemma last_cons_ne : forall A (x : A) l d, l <> [] -> last (x :: l) d = last l d.
+Proof. intros A x [|y l] d H; [congruence|reflexivity]. Qed.
+
+(* the three bookkeeping facts that change when a batch with the next sequence number is submitted *)
+Lemma submit_facts : forall subm consumed s x top',
+  PInv subm consumed s -> bseq top' = length subm -> blines top' = x ->
+  Forall (fun b => bseq b < length (subm ++ [x]) /\ blines b = nth (bseq b) (subm ++ [x]) []) (bag s ++ [top']) /\
+  (forall i b, nth_error (ordering s) i = Some (Some b) ->
+     base s + i < length (subm ++ [x]) /\ flush_events b = ev_lines (nth (base s + i) (subm ++ [x]) [])) /\
+  (Permutation (map bseq (bag s ++ [top']) ++ present_seqs (base s) (ordering s))
+               (seq (base s) (length (subm ++ [x]) - base s)) /\ base s <= length (subm ++ [x])) /\
+  ev_lines (concat (skipn (base s) (subm ++ [x]))) = ev_lines (concat (skipn (base s) subm)) ++ ev_lines x.
+Proof.
+  intros subm consumed s x top' [P0 P1 P3 P4 P5 P6 P8 P9 P10 P11 P12] Hs Hx.
+  destruct P8 as [Pp Ple]. rewrite app_length. simpl. repeat split.
+  - apply Forall_app. split.
+    + eapply Forall_impl; [|exact P5]. intros b [Hb1 Hb2]. split; [lia|]. rewrite app_nth1 by exact Hb1. exact Hb2.
+    + constructor; [|constructor]. rewrite Hs. split; [lia|]. rewrite app_nth2 by lia. rewrite Nat.sub_diag. simpl. exact Hx.
+  - destruct (P6 i b H). lia.
+  - destruct (P6 i b H) as [Hl Hf]. rewrite app_nth1 by exact Hl. exact Hf.
+  - replace (length subm + 1 - base s) with (S (length subm - base s)) by lia. rewrite seq_S.
+    replace (base s + (length subm - base s)) with (length subm) by lia.
+    rewrite map_app. simpl. rewrite Hs. rewrite <- app_assoc.
+    eapply perm_trans; [apply Permutation_app_head; apply Permutation_app_comm|].
+    rewrite app_assoc. apply Permutation_app_tail. exact Pp.
+  - lia.
+  - rewrite skipn_app_le by exact Ple. rewrite concat_app, ev_lines_app. simpl. rewrite app_nil_r. reflexivity.
+Qed.
+
+Lemma wf_of_token : forall consumed l rest, toks = consumed ++ Line l :: rest -> wf_line l.
+Proof.
+  intros consumed l rest E. pose proof Hwf as H. rewrite E in H. apply Forall_app in H. destruct H as [_ H].
+  inversion H; subst. assumption.
+Qed.
+
+Lemma clean_fill : forall b n, clean b -> clean (fill b n).
+Proof. intros b n [H1 H2]. split; assumption. Qed.
+Lemma clean_add_line : forall b l, clean b -> clean (add_line b l).
+Proof. intros b l [H1 H2]. split; assumption. Qed.
+
+Lemma reader_inv : forall s s', Inv s -> reader_step cfg s = Some s' -> Inv s'.
+Proof.
+  intros s s' (subm & consumed & HP & Hfront) Hr. unfold reader_step in Hr.
+  pose proof HP as [P0 P1 P3 P4 P5 P6 P8 P9 P10 P11 P12].
+  destruct P4 as (C1 & C2 & C3). destruct P11 as [W1 W2].
+  destruct (pc s) eqn:Hpc.
+  - (* RTok *)
+    destruct P9 as (top & lower & El & Eseq & Esn & Elen & Eend). rewrite El in *.
+    assert (Hpend : pending s = blines top) by (unfold pending; rewrite Hpc, El; reflexivity).
+    inversion C1 as [|? ? Ctop Clower]; subst.
+    destruct (input s) as [|t rest] eqn:Ein.
+    + (* end of input: destructor *)
+      injection Hr as <-. destruct (Eend eq_refl) as [Eb Ebase]. rewrite Hpend in P10, W2. cbn [tail_mark] in P10.
+      exists subm, consumed. split; [|exact Hfront]. unfold set_reader. constructor; pend; auto.
+    + destruct t as [l| |].
+      * (* a line *)
+        assert (Hwl : wf_line l) by (eapply wf_of_token; rewrite P1; reflexivity).
+        assert (Hrest : rest <> []) by (intros ->; apply (P12 l); reflexivity).
+        assert (Hlast : forall l0, last rest EndSection <> Line l0).
+        { intros l0. rewrite <- (last_cons_ne _ (Line l) rest EndSection Hrest). apply P12. }
+        assert (Hcons : toks = (consumed ++ [Line l]) ++ rest) by (rewrite <- app_assoc; exact P1).
+        assert (Hseq' : sequential (consumed ++ [Line l]) = sequential consumed ++ line_events l).
+        { rewrite sequential_app. simpl. rewrite app_nil_r. reflexivity. }
+        rewrite Hpend in P10, W2. cbn [tail_mark] in P10. rewrite app_nil_r in P10.
+        destruct (length (blines (add_line top l)) =? bsize cfg) eqn:Efull.
+        -- (* the batch is full: submit it *)
+           destruct (submit_facts subm consumed s (blines (add_line top l)) (add_line top l) HP Eseq eq_refl) as (F5 & F6 & F8 & F10).
+           assert (Wx : Forall wf_line (concat (subm ++ [blines (add_line top l)]))).
+           { rewrite concat_app. apply Forall_app. split; [exact W1|]. simpl. rewrite app_nil_r. apply Forall_app. split; [exact W2|]. auto. }
+           assert (Hev : ev_lines (blines (add_line top l)) = ev_lines (blines top) ++ line_events l).
+           { simpl. rewrite ev_lines_app. unfold ev_lines at 2. simpl. rewrite app_nil_r. reflexivity. }
+           destruct lower as [|t2 l2].
+           ++ injection Hr as <-. exists (subm ++ [blines (add_line top l)]), (consumed ++ [Line l]).
+              split; [|exact Hfront]. unfold set_reader. constructor; fields; auto.
+              ** rewrite app_length. simpl in *. lia.
+              ** repeat split; auto. apply Forall_app. split; [exact C3|]. constructor; [|constructor]. apply clean_add_line. exact Ctop.
+              ** repeat split; auto. rewrite app_length. simpl. lia.
+              ** pend. change (ev_lines []) with (@nil event). rewrite F10, Hev, Hseq', <- P10. rewrite !app_nil_r, <- !app_assoc. reflexivity.
+              ** split; [exact Wx|]. pend. constructor.
+           ++ injection Hr as <-. exists (subm ++ [blines (add_line top l)]), (consumed ++ [Line l]).
+              split; [|exact Hfront]. unfold set_reader. constructor; fields; auto.
+              ** rewrite app_length. simpl in *. lia.
+              ** inversion Clower; subst. repeat split; auto;
+                   try (constructor; [apply clean_fill; assumption|assumption]);
+                   try (apply Forall_app; split; [exact C3|]; constructor; [|constructor]; apply clean_add_line; exact Ctop).
+              ** exists (fill t2 (seqn s)), l2. rewrite app_length. simpl. repeat split; auto; try lia; intros; congruence.
+              ** pend. change (ev_lines (blines (fill t2 (seqn s)))) with (@nil event). rewrite F10, Hev, Hseq', <- P10. rewrite !app_nil_r, <- !app_assoc. reflexivity.
+              ** split; [exact Wx|]. pend. constructor.
+        -- (* room left in the batch *)
+           injection Hr as <-. exists subm, (consumed ++ [Line l]).
+           split; [|exact Hfront]. unfold set_reader. constructor; fields; auto.
+           ** exists (add_line top l), lower. simpl. repeat split; auto; try (intros; congruence).
+              apply Nat.eqb_neq in Efull. simpl in Efull. rewrite app_length in *. simpl in *. lia.
+           ** pend. cbn [blines add_line]. rewrite ev_lines_app, Hseq', <- P10. unfold ev_lines at 3. simpl.
+              rewrite !app_nil_r, <- !app_assoc. reflexivity.
+           ** split; [exact W1|]. pend. cbn [blines add_line]. apply Forall_app. split; [exact W2|]. auto.
+      * (* EndSection: Flush, then the section mark *)
+        simpl in Hr.
+        assert (Hcons : toks = (consumed ++ [EndSection]) ++ rest) by (rewrite <- app_assoc; exact P1).
+        assert (Hlast : forall l0, last rest EndSection <> Line l0).
+        { intros l0. destruct rest as [|r0 rr]; [simpl; discriminate|]. rewrite <- (last_cons_ne _ EndSection (r0 :: rr) EndSection) by discriminate. apply P12. }
+        assert (Hseq' : sequential (consumed ++ [EndSection]) = sequential consumed ++ [Mark]).
+        { rewrite sequential_app. reflexivity. }
+        rewrite Hpend in P10, W2. cbn [tail_mark] in P10. rewrite app_nil_r in P10.
+        destruct (submit_facts subm consumed s (blines top) top HP Eseq eq_refl) as (F5 & F6 & F8 & F10).
+        assert (Wx : Forall wf_line (concat (subm ++ [blines top]))).
+        { rewrite concat_app. apply Forall_app. split; [exact W1|]. simpl. rewrite app_nil_r. exact W2. }
+        destruct lower as [|t2 l2]; injection Hr as <-; exists (subm ++ [blines top]), (consumed ++ [EndSection]);
+          (split; [|exact Hfront]); unfold set_reader; constructor; fields; auto.
+        -- rewrite app_length. simpl in *. lia.
+        -- repeat split; auto. apply Forall_app. split; [exact C3|]. constructor; [exact Ctop|constructor].
+        -- split; auto. rewrite app_length. simpl. lia.
+        -- unfold pending. fields. rewrite F10, Hseq', <- P10. simpl. rewrite <- !app_assoc. reflexivity.
+        -- split; [exact Wx|]. pend. constructor.
+        -- rewrite app_length. simpl in *. lia.
+        -- repeat split; auto. apply Forall_app. split; [exact C3|]. constructor; [exact Ctop|constructor].
+        -- rewrite app_length. simpl. lia.
+        -- unfold pending. fields. rewrite F10, Hseq', <- P10. simpl. rewrite <- !app_assoc. reflexivity.
+        -- split; [exact Wx|]. pend. constructor.
+      * (* FlushOnly *)
+        simpl in Hr.
+        assert (Hcons : toks = (consumed ++ [FlushOnly]) ++ rest) by (rewrite <- app_assoc; exact P1).
+        assert (Hlast : forall l0, last rest EndSection <> Line l0).
+        { intros l0. destruct rest as [|r0 rr]; [simpl; discriminate|]. rewrite <- (last_cons_ne _ FlushOnly (r0 :: rr) EndSection) by discriminate. apply P12. }
+        assert (Hseq' : sequential (consumed ++ [FlushOnly]) = sequential consumed).
+        { rewrite sequential_app. simpl. rewrite app_nil_r. reflexivity. }
+        rewrite Hpend in P10, W2. cbn [tail_mark] in P10. rewrite app_nil_r in P10.
+        destruct (submit_facts subm consumed s (blines top) top HP Eseq eq_refl) as (F5 & F6 & F8 & F10).
+        assert (Wx : Forall wf_line (concat (subm ++ [blines top]))).
+        { rewrite concat_app. apply Forall_app. split; [exact W1|]. simpl. rewrite app_nil_r. exact W2. }
+        destruct lower as [|t2 l2]; injection Hr as <-; exists (subm ++ [blines top]), (consumed ++ [FlushOnly]);
+          (split; [|exact Hfront]); unfold set_reader; constructor; fields; auto.
+        -- rewrite app_length. simpl in *. lia.
+        -- repeat split; auto. apply Forall_app. split; [exact C3|]. constructor; [exact Ctop|constructor].
+        -- split; auto. rewrite app_length. simpl. lia.
+        -- unfold pending. fields. rewrite F10, Hseq', <- P10. simpl. rewrite !app_nil_r. reflexivity.
+        -- split; [exact Wx|]. pend. constructor.
+        -- rewrite app_length. simpl in *. lia.
+        -- repeat split; auto. apply Forall_app. split; [exact C3|]. constructor; [exact Ctop|constructor].
+        -- rewrite app_length. simpl. lia.
+        -- unfold pending. fields. rewrite F10, Hseq', <- P10. simpl. rewrite !app_nil_r. reflexivity.
+        -- split; [exact Wx|]. pend. constructor.
+  - (* RMoveA *)
+    destruct P9 as (El & Esn & Ein). destruct (home s) as [|h hm] eqn:Eh; [discriminate|]. rewrite El in Hr. simpl in Hr.
+    injection Hr as <-. inversion C2; subst.
+    assert (Hpend : pending s = []) by (unfold pending; rewrite Hpc; reflexivity).
+    rewrite Hpend in P10, W2. cbn [tail_mark] in P10.
+    exists subm, consumed. split; [|exact Hfront]. unfold set_reader. constructor; fields; auto;
+      try solve [rewrite El in P3; simpl in *; lia];
+      try solve [exists (fill h (seqn s)), []; simpl; repeat split; auto; try lia; intros; congruence];
+      try solve [pend; exact P10];
+      try solve [split; [exact W1|]; pend; constructor].
+  - (* RMoveF *)
+    destruct P9 as (El & Esn). destruct (home s) as [|h hm] eqn:Eh; [discriminate|].
+    injection Hr as <-. inversion C2; subst.
+    assert (Hpend : pending s = []) by (unfold pending; rewrite Hpc; reflexivity).
+    rewrite Hpend in P10, W2.
+    exists subm, consumed. split; [|exact Hfront]. unfold set_reader. constructor; fields; auto;
+      try solve [rewrite El in *; simpl in *; lia];
+      try solve [pend; exact P10];
+      try solve [split; [exact W1|]; pend; constructor].
+  - (* RWait *)
+    assert (Hpend : pending s = []) by (unfold pending; rewrite Hpc; reflexivity).
+    rewrite Hpend in P10, W2.
+    destruct (length (local s) <? nbatch cfg) eqn:Elt.
+    + destruct (home s) as [|h hm] eqn:Eh; [discriminate|].
+      injection Hr as <-. inversion C2; subst.
+      exists subm, consumed. split; [|exact Hfront]. unfold set_reader. constructor; fields; auto;
+        try solve [simpl in *; lia];
+        try solve [pend; exact P10];
+        try solve [split; [exact W1|]; pend; constructor].
+    + (* every batch is back: NewInput, then (EndLength) the section mark *)
+      apply Nat.ltb_ge in Elt. simpl in Elt.
+      assert (Hh : home s = []) by (destruct (home s); [reflexivity|simpl in P3; lia]).
+      assert (Hb : bag s = []) by (destruct (bag s); [reflexivity|simpl in P3; lia]).
+      assert (Hp : present_seqs (base s) (ordering s) = []) by (destruct (present_seqs (base s) (ordering s)); [reflexivity|simpl in P3; lia]).
+      destruct P8 as [Pp Ple]. rewrite Hb, Hp in Pp. simpl in Pp.
+      assert (Hbase : base s = length subm).
+      { apply Permutation_length in Pp. rewrite seq_length in Pp. simpl in Pp. lia. }
+      destruct (local s) as [|t2 l2] eqn:El; [simpl in Elt; lia|]. simpl in Hr. injection Hr as <-.
+      inversion C1; subst.
+      rewrite Hbase, skipn_all in P10. simpl in P10.
+      exists subm, consumed. split; [|exact Hfront]. unfold set_reader. constructor; fields; auto;
+        try solve [repeat split; auto; constructor; [apply clean_fill; assumption|assumption]];
+        try solve [rewrite Hb, Hp; simpl; split; [exact Pp|lia]];
+        try solve [exists (fill t2 (seqn s)), l2; simpl; repeat split; auto; lia];
+        try solve [split; [exact W1|]; pend; constructor].
+      pend. change (ev_lines (blines (fill t2 (seqn s)))) with (@nil event). rewrite Hbase, skipn_all. simpl. rewrite app_nil_r.
+      destruct mark; simpl in *; rewrite ?app_nil_r in *; exact P10.
+  - (* RDrain *)
+    destruct (bag s) eqn:Eb; [|discriminate]. injection Hr as <-.
+    assert (Hpend : pending {| input := input s; seqn := seqn s; local := local s; home := home s; bag := []; ordering := ordering s;
+                               base := base s; out := out s; pc := RDone; crashed := crashed s |} = pending s).
+    { unfold pending. fields. rewrite Hpc. reflexivity. }
+    exists subm, consumed. split; [|exact Hfront]. unfold set_reader. constructor; fields; auto;
+      try solve [rewrite Eb in P3; exact P3];
+      try solve [rewrite Hpend; auto].
+  - discriminate.
+Qed.
+
+Lemma step_inv : forall s t s', Inv s -> step cfg s t = Some s' -> Inv s'.
+Proof.
+  intros s t s' HI Hs. unfold step in Hs. destruct (crashed s); [discriminate|].
+  destruct t; [eapply reader_inv|eapply arrive_inv]; eassumption.
+Qed.
+
+Lemma fresh_clean : forall n, Forall clean (fresh n).
+Proof. induction n; simpl; constructor; auto. split; reflexivity. Qed.
+Lemma fresh_length : forall n, length (fresh n) = n.
+Proof. induction n; simpl; auto. Qed.
+
+Lemma init_inv : Inv (init cfg toks).
+Proof.
+  unfold init. simpl. destruct Q as [|q] eqn:EQ; [lia|]. simpl.
+  exists [], []. split; [|exact I]. constructor; fields; simpl; auto;
+    try solve [rewrite fresh_length; lia];
+    try solve [repeat split; auto; constructor; [split; reflexivity|apply fresh_clean]];
+    try solve [intros [|i] b H; discriminate];
+    try solve [exists (fill (mkbatch q 0 [] [] None) 0), (fresh q); simpl; repeat split; auto; lia];
+    try solve [split; constructor].
+Qed.
+
+Lemma run_none : forall sched, fold_left (fun o t => match o with Some x => step cfg x t | None => None end) sched None = None.
+Proof. induction sched; simpl; auto. Qed.
+
+Lemma reach_inv : forall sched s s', Inv s -> run cfg sched s = Some s' -> Inv s'.
+Proof.
+  induction sched as [|t sched IH]; intros s s' HI Hr; unfold run in Hr; simpl in Hr.
+  - injection Hr as <-. exact HI.
+  - destruct (step cfg s t) as [s1|] eqn:E; [|rewrite run_none in Hr; discriminate].
+    apply (IH s1); [eapply step_inv; eassumption|exact Hr].
+Qed.
+
+Definition reachable (s : st) : Prop := exists sched, run cfg sched (init cfg toks) = Some s.
+Lemma reachable_inv : forall s, reachable s -> Inv s.
+Proof. intros s [sched H]. eapply reach_inv; [apply init_inv|exact H]. Qed.
+
+(* --- the claimed clauses --- *)
+Lemma never_crashes : forall s, reachable s -> crashed s = false.
+Proof. intros s H. destruct (reachable_inv s H) as (subm & consumed & HP & _). apply HP. Qed.
+
+(* at every moment what has been written is a prefix of what the sequential filter writes *)
+Lemma output_prefix : forall s, reachable s -> exists rest, out s ++ rest = sequential toks.
+Proof.
+  intros s H. destruct (reachable_inv s H) as (subm & consumed & HP & _).
+  destruct HP as [P0 P1 P3 P4 P5 P6 P8 P9 P10 P11 P12].
+  rewrite P1, sequential_app, <- P10. rewrite <- !app_assoc. eexists. reflexivity.
+Qed.
+
+(* a finished run has written exactly what the sequential filter writes *)
+Lemma output_equals_sequential : forall s, reachable s -> done s = true -> out s = sequential toks.
+Proof.
+  intros s H Hd. destruct (reachable_inv s H) as (subm & consumed & HP & _).
+  destruct HP as [P0 P1 P3 P4 P5 P6 P8 P9 P10 P11 P12].
+  unfold done in Hd. destruct (pc s) eqn:Hpc; try discriminate.
+  destruct P9 as (Ein & Epend & Ebase). rewrite Ein, app_nil_r in P1. subst consumed.
+  rewrite Epend, Ebase, skipn_all in P10. simpl in P10. rewrite !app_nil_r in P10. exact P10.
+Qed.
+
+(* submitted sequence numbers are dense: the numbers in flight (submitted, not yet flushed) are exactly
+   base_sequence_ .. nsub-1, each once; in particular the number the OutputWorker waits for is in flight or arrived *)
+Lemma dense_sequence : forall s, reachable s ->
+  exists nsub, base s <= nsub /\
+               Permutation (map bseq (bag s) ++ present_seqs (base s) (ordering s)) (seq (base s) (nsub - base s)).
+Proof.
+  intros s H. destruct (reachable_inv s H) as (subm & consumed & HP & _).
+  destruct HP as [P0 P1 P3 P4 P5 P6 P8 P9 P10 P11 P12]. exists (length subm). destruct P8 as [Pp Ple]. auto.
+Qed.
+
+
+(* --- no deadlock --- *)
+Lemma arrive_some : forall s i b, nth_error (bag s) i = Some b -> exists s', arrive cfg s i = Some s'.
+Proof.
+  intros s i b H. unfold arrive. rewrite H. destruct (call_filter b 0 (blines b)); [|eauto].
+  destruct (bseq b0 <? base s); [eauto|].
+  destruct (drain cfg (put (ordering s) (bseq b0 - base s) b0) (base s) (out s) (home s)) as [[[? ?] ?] ?]. eauto.
+Qed.
+
+Lemma starved_impossible : forall s subm consumed, PInv subm consumed s -> front_none (ordering s) ->
+  bag s = [] -> home s = [] -> length (local s) < Q -> False.
+Proof.
+  intros s subm consumed [P0 P1 P3 P4 P5 P6 P8 P9 P10 P11 P12] Hf Hb Hh Hl.
+  rewrite Hb, Hh in P3. simpl in P3. destruct P8 as [Pp Ple]. rewrite Hb in Pp. simpl in Pp.
+  assert (Hn : length (present_seqs (base s) (ordering s)) = length subm - base s).
+  { rewrite (Permutation_length Pp). apply seq_length. }
+  assert (Hin : In (base s) (present_seqs (base s) (ordering s))).
+  { eapply Permutation_in; [apply Permutation_sym; exact Pp|]. apply in_seq. lia. }
+  destruct (present_in _ _ _ Hin) as (i & y & Hi & Hy). assert (i = 0) by lia. subst i.
+  unfold front_none in Hf. destruct (ordering s) as [|[z|] r]; simpl in Hy; try discriminate. exact Hf.
+Qed.
+
+Lemma no_deadlock : forall s, reachable s -> done s = false -> exists t s', step cfg s t = Some s'.
+Proof.
+  intros s H Hd. pose proof (never_crashes s H) as Hc.
+  destruct (reachable_inv s H) as (subm & consumed & HP & Hfront).
+  pose proof HP as [P0 P1 P3 P4 P5 P6 P8 P9 P10 P11 P12].
+  unfold step. rewrite Hc.
+  assert (Harr : bag s <> [] -> exists t s', (if false then None else match t with Rd => reader_step cfg s | Arr i => arrive cfg s i end) = Some s').
+  { intros Hb. destruct (bag s) as [|b r] eqn:Eb; [congruence|].
+    destruct (arrive_some s 0 b) as [s' Hs']; [rewrite Eb; reflexivity|]. exists (Arr 0), s'. exact Hs'. }
+  assert (Hstarve : bag s = [] -> home s = [] -> length (local s) < Q -> False) by (eapply starved_impossible; eassumption).
+  unfold reader_step in *. unfold done in Hd. rewrite Hc in Hd. simpl in Hd.
+  destruct (pc s) eqn:Hpc.
+  - destruct P9 as (top & lower & El & _). exists Rd. simpl. rewrite El.
+    destruct (input s) as [|[l| |] rest]; [eauto| | |].
+    + destruct lower as [|t2 l2]; simpl; destruct (length (blines top ++ [l]) =? B); eauto.
+    + destruct lower; eauto.
+    + destruct lower; eauto.
+  - destruct P9 as (El & _). destruct (home s) as [|h hm] eqn:Eh.
+    + destruct (bag s) eqn:Eb; [exfalso; apply Hstarve; auto; rewrite El; simpl; lia|]. apply Harr. discriminate.
+    + exists Rd. simpl. destruct (new_input (h :: local s) (seqn s)). eauto.
+  - destruct P9 as (El & _). destruct (home s) as [|h hm] eqn:Eh.
+    + destruct (bag s) eqn:Eb; [exfalso; apply Hstarve; auto; rewrite El; simpl; lia|]. apply Harr. discriminate.
+    + exists Rd. simpl. eauto.
+  - destruct (length (local s) <? nbatch cfg) eqn:Elt.
+    + apply Nat.ltb_lt in Elt. simpl in Elt. destruct (home s) as [|h hm] eqn:Eh.
+      * destruct (bag s) eqn:Eb; [exfalso; apply Hstarve; auto|]. apply Harr. discriminate.
+      * exists Rd. simpl. eauto.
+    + exists Rd. simpl. destruct (new_input (local s) (seqn s)). eauto.
+  - destruct (bag s) eqn:Eb; [exists Rd; simpl; eauto|]. apply Harr. discriminate.
+  - discriminate.
+Qed.
+
+(* --- termination: a measure that every step decreases --- *)
+Definition pc_weight (p : rpc) : nat :=
+  match p with RMoveF _ => 4 | RWait _ => 3 | RMoveA => 3 | RTok => 2 | RDrain => 1 | RDone => 0 end.
+Definition measure (s : st) : nat :=
+  8 * length (input s) + 3 * length (bag s) + 2 * length (present_seqs (base s) (ordering s)) + length (home s) + pc_weight (pc s).
+
+Lemma drain_counts : forall ord bs o hm,
+  let '(ord', bs', o', hm') := drain cfg ord bs o hm in
+  length hm' + 2 * length (present_seqs bs' ord') <= length hm + 2 * length (present_seqs bs ord).
+Proof.
+  induction ord as [|[b|] t IH]; intros bs o hm; simpl; try lia.
+  specialize (IH (S bs) (o ++ flush_events b) (hm ++ [flushed cfg b])).
+  destruct (drain cfg t (S bs) (o ++ flush_events b) (hm ++ [flushed cfg b])) as [[[ord' bs'] o'] hm'].
+  rewrite app_length in IH. simpl in IH. lia.
+Qed.
+
+Lemma progress_measure : forall s t s', Inv s -> step cfg s t = Some s' -> measure s' < measure s.
+Proof.
+  intros s t s' (subm & consumed & HP & Hfront) Hs. unfold step in Hs.
+  pose proof HP as [P0 P1 P3 P4 P5 P6 P8 P9 P10 P11 P12]. rewrite P0 in Hs. unfold measure.
+  destruct t as [|i].
+  - unfold reader_step in Hs. destruct (pc s) eqn:Hpc.
+    + destruct P9 as (top & lower & El & _). rewrite El in Hs.
+      destruct (input s) as [|[l| |] rest] eqn:Ein.
+      * injection Hs as <-. simpl. lia.
+      * destruct (length (blines (add_line top l)) =? bsize cfg).
+        -- destruct lower as [|t2 l2]; injection Hs as <-; simpl; rewrite app_length; simpl; lia.
+        -- injection Hs as <-. simpl. lia.
+      * simpl in Hs. destruct lower as [|t2 l2]; injection Hs as <-; simpl; rewrite app_length; simpl; lia.
+      * simpl in Hs. destruct lower as [|t2 l2]; injection Hs as <-; simpl; rewrite app_length; simpl; lia.
+    + destruct (home s) as [|h hm] eqn:Eh; [discriminate|]. destruct (new_input (h :: local s) (seqn s)) eqn:En.
+      injection Hs as <-. simpl. lia.
+    + destruct (home s) as [|h hm] eqn:Eh; [discriminate|]. injection Hs as <-. simpl. lia.
+    + destruct (length (local s) <? nbatch cfg).
+      * destruct (home s) as [|h hm] eqn:Eh; [discriminate|]. injection Hs as <-. simpl. lia.
+      * destruct (new_input (local s) (seqn s)) eqn:En. injection Hs as <-. simpl. lia.
+    + destruct (bag s) eqn:Eb; [|discriminate]. injection Hs as <-. simpl. lia.
+    + discriminate.
+  - unfold arrive in Hs. destruct (nth_error (bag s) i) as [b|] eqn:Hn; [|discriminate].
+    pose proof (remove_nth_length _ _ _ _ Hn) as Hlen.
+    destruct (call_filter b 0 (blines b)) as [b'|] eqn:Hcf; [|injection Hs as <-; simpl; lia].
+    destruct (bseq b' <? base s) eqn:Hlt; [injection Hs as <-; simpl; lia|].
+    (* the position is free (as in arrive_inv), so exactly one more position is present before draining *)
+    assert (Hin : In b (bag s)) by (eapply nth_error_In; eassumption).
+    destruct P4 as (C1 & C2 & C3). destruct P8 as [Pp Ple].
+    assert (Hcl : clean b) by (rewrite Forall_forall in C3; auto).
+    assert (Hb5 : bseq b < length subm /\ blines b = nth (bseq b) subm []) by (rewrite Forall_forall in P5; auto).
+    assert (Hwl : Forall wf_line (blines b)) by (destruct Hb5 as [_ ->]; apply Forall_concat_nth; apply P11).
+    destruct (filter_clean_batch b Hcl Hwl) as (b2 & Hcf2 & (_ & Hseq & _) & _). rewrite Hcf in Hcf2. injection Hcf2 as <-.
+    apply Nat.ltb_ge in Hlt.
+    set (pos := bseq b' - base s) in *.
+    assert (Hpos : base s + pos = bseq b) by (unfold pos; lia).
+    assert (Hfree : nth_error (ordering s) pos = None \/ nth_error (ordering s) pos = Some None).
+    { destruct (nth_error (ordering s) pos) as [[y|]|] eqn:E; auto. exfalso.
+      pose proof (in_present _ (base s) _ _ E) as Hi. rewrite Hpos in Hi.
+      assert (Hnd : NoDup (map bseq (bag s) ++ present_seqs (base s) (ordering s))).
+      { eapply Permutation_NoDup; [apply Permutation_sym; exact Pp|apply seq_NoDup]. }
+      assert (Hp2 : Permutation (map bseq (bag s) ++ present_seqs (base s) (ordering s))
+                                (bseq b :: map bseq (remove_nth (bag s) i) ++ present_seqs (base s) (ordering s))).
+      { change (bseq b :: map bseq (remove_nth (bag s) i) ++ present_seqs (base s) (ordering s))
+          with (map bseq (b :: remove_nth (bag s) i) ++ present_seqs (base s) (ordering s)).
+        apply Permutation_app_tail. apply Permutation_map. apply Permutation_sym. apply remove_nth_perm. exact Hn. }
+      eapply Permutation_NoDup in Hnd; [|exact Hp2]. inversion Hnd as [|? ? Hnotin _]; subst.
+      apply Hnotin. apply in_or_app. right. exact Hi. }
+    pose proof (Permutation_length (put_present _ pos (base s) b' Hfree)) as Hput. simpl in Hput.
+    pose proof (drain_counts (put (ordering s) pos b') (base s) (out s) (home s)) as Hd.
+    destruct (drain cfg (put (ordering s) pos b') (base s) (out s) (home s)) as [[[ord' bs'] o'] hm'].
+    injection Hs as <-. simpl. lia.
+Qed.
+
+Lemma schedules_bounded : forall sched s s', Inv s -> run cfg sched s = Some s' -> length sched + measure s' <= measure s.
+Proof.
+  induction sched as [|t sched IH]; intros s s' HI Hr; unfold run in Hr; simpl in Hr.
+  - injection Hr as <-. simpl. lia.
+  - destruct (step cfg s t) as [s1|] eqn:E; [|rewrite run_none in Hr; discriminate].
+    pose proof (progress_measure _ _ _ HI E). pose proof (IH s1 s' (step_inv _ _ _ HI E) Hr). simpl. lia.
+Qed.
+
+Lemma terminates : forall sched s, run cfg sched (init cfg toks) = Some s -> length sched <= 8 * length toks + 2.
+Proof.
+  intros sched s H. pose proof (schedules_bounded _ _ _ init_inv H) as Hb.
+  assert (measure (init cfg toks) = 8 * length toks + 2).
+  { unfold init, measure. destruct (new_input (fresh (nbatch cfg)) 0). simpl. lia. }
+  lia.
+Qed.
+End Repaired.
+
+(* the hypotheses of the positive theorems are satisfiable: a complete interleaved run of the repaired protocol,
+   2 threads (4 batches), batch size 1, two sections, batches recycled, arrivals out of order *)
+Definition ex_tokens : list token :=
+  [Line (ln 1 6 [ToOne 0]); Line (ln 2 6 [ToOne 0; ToOne 1]); Line (ln 3 6 [ToAll]); EndSection; Line (ln 4 6 [ToOne 1]); EndSection].
+Example repaired_run_example :
+  Forall wf_token ex_tokens /\ (forall l, last ex_tokens EndSection <> Line l) /\
+  exists s, run (mkconfig 4 1 false true) [Rd; Rd; Rd; Arr 2; Arr 1; Rd; Arr 0; Rd; Rd; Rd; Arr 0; Rd; Rd; Rd; Rd; Arr 1; Arr 0; Rd; Rd; Rd; Rd; Rd]
+                (init (mkconfig 4 1 false true) ex_tokens) = Some s /\ done s = true /\ out s = sequential ex_tokens.
+Proof.
+  split; [repeat (apply Forall_cons; [unfold wf_token, wf_line; simpl; first [left; reflexivity | right; reflexivity | exact I]|]); apply Forall_nil|].
+  split; [intros l; simpl; discriminate|].
+  eexists. split; [vm_compute; reflexivity|]. split; reflexivity.
+Qed.
